@@ -37,7 +37,17 @@ Section Inst.
   Definition c_line_of_e (p : string) (a : earg) : nat := 0.
 
   (* the Sem development instantiated *)
+  (* "NameError:free" is the failure of a read through `lambda: x` of a function local that is not bound yet
+     (Py/Sem.v, lookup_thunk): CPython raises a NameError with its own message there; the run is marked with the
+     dynamic guard clause unbound_local_thunk *)
+  Definition notew (n : string) (w : world) : world :=
+    {| log := log w; nextrec := nextrec w; truths := truths w; attrs := attrs w; iters := iters w; nextiter := nextiter w;
+       fnames := fnames w; notes := if mem_str n (notes w) then notes w else notes w ++ [n] |}.
   Definition c_exc_new (cls msg : string) (w : world) : val * world :=
+    if String.eqb cls "NameError:free" then
+      (VExc "NameError" [VStr ("cannot access free variable '" ++ msg ++ "' where it is not associated with a value in enclosing scope")%string],
+       notew "unbound_local_thunk" w)
+    else
     (VExc cls [VStr (if String.eqb cls "NameError" then ("name '" ++ msg ++ "' is not defined")
                      else if String.eqb cls "UnboundLocalError" then ("cannot access local variable '" ++ msg ++ "' where it is not associated with a value")
                      else msg)%string], w).
@@ -99,7 +109,8 @@ Definition outcome_str (fn : list string) (r : res val unit) : string :=
   | Stuck y => ("stuck:" ++ y)%string
   end.
 
-Record obs := { o_log : list (list string); o_globals : list (string * string); o_outcome : string; o_dels : list (list string) }.
+Record obs := { o_log : list (list string); o_globals : list (string * string); o_outcome : string; o_dels : list (list string);
+                o_notes : list string (* dynamic guard clauses met by a model run; never compared *) }.
 
 Definition observe (fn : list string) (x : res val unit * cst) : obs :=
   let '(r, s) := x in
@@ -107,7 +118,8 @@ Definition observe (fn : list string) (x : res val unit * cst) : obs :=
      o_globals := map (fun kv => (fst kv, show fn (snd kv)))
                       (filter (fun kv => negb (mem_str (fst kv) (map fst genv0))) (genv s));
      o_outcome := outcome_str fn r;
-     o_dels := map (show_delivery fn) (dels (eng s)) |}.
+     o_dels := map (show_delivery fn) (dels (eng s));
+     o_notes := notes (w s) |}.
 
 Definition fnames_of (p : program) : list string := map f_name (p_funs p).
 
@@ -144,14 +156,13 @@ Definition limited (o : obs) : bool :=
   || existsb (fun e => match e with h :: _ => String.eqb h "MODEL_LIMIT" | [] => false end) (o_log o).
 
 (* bit mask: 1 = I_orig<>M_orig, 2 = I_inst<>M_inst, 4 = M_inst<>S, 8 = I_inst<>I_orig (behaviour), 16 = outside the model, 32 = I_inst<>S *)
-Definition verdict (fuel : nat) (c : program * (list string * (list pana * (bool * (obs * obs))))) : nat :=
-  let '(p, (H, (anas, (cov, (io, ii))))) := c in
-  let mo := run_orig fuel p in
-  let mi := run_inst fuel H anas cov p in
-  let s := run_ref fuel H anas cov p in
+Definition verdict_of (io ii mo mi s : obs) : nat :=
   if limited mo || limited mi || limited s then 16 + (if behaviour_eqb ii io then 0 else 8)
   else (if obs_same io mo then 0 else 1) + (if obs_same ii mi then 0 else 2) + (if obs_same mi s then 0 else 4)
        + (if behaviour_eqb ii io then 0 else 8) + (if obs_same ii s then 0 else 32).
+Definition verdict (fuel : nat) (c : program * (list string * (list pana * (bool * (obs * obs))))) : nat :=
+  let '(p, (H, (anas, (cov, (io, ii))))) := c in
+  verdict_of io ii (run_orig fuel p) (run_inst fuel H anas cov p) (run_ref fuel H anas cov p).
 
 (* for diagnosis: the three model observations of a case *)
 Definition explain (fuel : nat) (c : program * (list string * (list pana * (bool * (obs * obs))))) : obs * obs * obs :=
@@ -196,8 +207,9 @@ Definition cat_same (k : nat) (a b : obs) : bool := list_eqb (list_eqb String.eq
 Definition verdict2 (fuel : nat) (c : program * (list string * (list pana * (bool * (obs * obs))))) : nat * list string :=
   let '(p, (H, (anas, (cov, (io, ii))))) := c in
   let s := run_ref fuel H anas cov p in
-  let v := verdict fuel c in
+  let mi := run_inst fuel H anas cov p in
+  let v := verdict_of io ii (run_orig fuel p) mi s in
   (v + (if Nat.eqb (Nat.land v 16) 16 then 0
         else (if cat_same 1 ii s then 0 else 64) + (if cat_same 2 ii s then 0 else 128) + (if cat_same 3 ii s then 0 else 256)
              + (if cat_same 0 ii s then 0 else 512) + (if behaviour_eqb ii s then 0 else 1024)),
-   failing_clauses H p).
+   failing_clauses H p ++ o_notes mi).
